@@ -234,6 +234,27 @@ def run(ctx):
     r_post.hit("tail")
     if tail is None or unparse(tail) != "Ok(%s)" % var:
         ctx.report(r_post, "from_cbor_file:tail", "from_cbor_file must return the decoded store itself", ff.file, ff.line)
+    # the callers hand the loaded store on as it is (MIR: the result of from_cbor_file flows into nothing but the return value)
+    import mirq
+    prog = mirq.Program(ctx.facts.mir())
+    PASS = re.compile(r"(Try::branch|FromResidual::from_residual|From::from|Into::into)$")
+    ncall = 0
+    for bid, b in sorted(prog.bodies.items()):
+        sites = [bi for bi, t in b.calls() if (mirq.callee_of(t)[0] or "").endswith("AnnotationStore::from_cbor_file")]
+        if not sites:
+            continue
+        ncall += len(sites)
+        ctx.functions_analysed.add(bid)
+        r_post.hit("caller:" + bid, sample={"caller": bid, "call_sites": len(sites)})
+        for bi, t in b.calls():
+            d = mirq.callee_of(t)[0] or ""
+            if d.endswith("AnnotationStore::from_cbor_file") or PASS.search(d):
+                continue
+            for a in t.get("args", []):
+                if any(x.endswith("AnnotationStore::from_cbor_file") for x in b.provenance(a)):
+                    ctx.report(r_post, "caller:%s|%s" % (bid, mirq.short_fn(d)), "%s passes the store it loaded with from_cbor_file on to %s before returning it: the binary format is a dump of the memory model (handles, gaps, indices) and anything done to it after decoding makes the loaded store differ from the saved one" % (bid, mirq.short_fn(d)), b.file, t.get("line"))
+                    break
+    ctx.floor(r_post, ncall, 1, "call sites of from_cbor_file")
 
 
 SHRINK_OK = {"shrink_to_fit", "iter_mut", "into_iter", "next", "as_mut", "deref_mut", "values_mut", "get_mut", "index_mut", "as_mut_slice", "iter", "deref", "as_ref", "borrow_mut", "write", "unwrap", "len", "is_empty", "capacity"}
